@@ -106,6 +106,30 @@ func run(c *props.Ctx) {
 		pr.checkAll()
 	}
 
+	// --- thorough: nobody outside package nodes re-wires an existing node behind SetInput's back
+	if c.Tier == "thorough" && pr != nil {
+		scanned, hits := 0, 0
+		for _, pk := range p.Pkgs {
+			osp := p.SSA.Package(pk.Types)
+			if osp == nil || osp == sp {
+				continue
+			}
+			for _, fn := range p.FuncsOf(osp) {
+				scanned++
+				ssau.AllInstrs(fn, func(in ssa.Instruction) {
+					if pr.dataWrite(in) {
+						hits++
+						c.R.Violate("NODE-5", p.FuncName(fn)+"#rewire", p.Pos(ssau.PosOf(in)),
+							"the Data of an existing node is written directly, bypassing SetInput: inputChangedSinceLastProcess stays false and the node keeps serving the output computed from the old input")
+					}
+				})
+			}
+		}
+		if hits == 0 {
+			c.R.Hold("NODE-5", "library#no-direct-rewire", p.Pos(pr.body(pr.mSetInput).Pos()), fmt.Sprintf("%d functions outside package nodes scanned: no store into (or reflective write of) an existing node's Data", scanned))
+		}
+	}
+
 	// --- value node and parameters
 	checkVersionedLeaves(c, repoRep{c})
 
@@ -123,16 +147,16 @@ func run(c *props.Ctx) {
 		}
 	}
 
-	c.R.Floor("NODE-1", 8)
+	c.R.Floor("NODE-1", 12)
 	c.R.Floor("NODE-2", 2)
 	c.R.Floor("NODE-3", 1)
-	c.R.Floor("NODE-4", 2)
+	c.R.Floor("NODE-4", 3)
 	c.R.Floor("NODE-5", 1)
 	c.R.Floor("NODE-6", 1)
 	c.R.Floor("NODE-7", 4)
 	c.R.Floor("NODE-9", 60)
 	c.R.Floor("ORD-1", 1)
-	c.R.Floor("REFL-1", 2)
+	c.R.Floor("REFL-1", 1)
 	if c.Tier == "thorough" {
 		c.R.Floor("NODE-8", 40)
 	}
